@@ -18,9 +18,9 @@ META = {
                     "documents on which the datum modifier is undefined for a selected node are executed "
                     "and counted but not judged (quantifier of C04)"],
     "bounds": {
-        "quick": {"paths": "length<=1 over 40 parts, length 2 over a 12-part, length 3 over a 7-part sub-alphabet",
+        "quick": {"paths": "length<=1 over 42 parts, length 2 over a 12-part, length 3 over a 7-part sub-alphabet",
                   "documents": "F-struct(3) + F-type flat/two-level + F-deep"},
-        "thorough": {"paths": "length<=1 over 40 parts, length 2 over 20 parts, length 3 over 7 parts, length 4 over 5 parts",
+        "thorough": {"paths": "length<=1 over 42 parts, length 2 over 20 parts, length 3 over 7 parts, length 4 over 5 parts",
                      "documents": "F-struct(4) + F-type flat/two-level + F-deep"},
     },
 }
